@@ -239,8 +239,37 @@ pub fn run_conc_case(rng: &mut Rng, idx: usize, thorough: bool) -> ConcOut {
                     std::thread::sleep(Duration::from_micros(r.below(1500)));
                 }
                 let nb = r.chance(1, 2);
+                // half of the writers' commits go through an overlay (Overlay::commit /
+                // Overlay::try_commit_nonblocking take the access lock on their own code path)
+                let via_overlay = r.chance(1, 2);
                 let t_start = sh.now();
-                let res: Result<bool, String> = if nb {
+                let res: Result<bool, String> = if via_overlay {
+                    let ov = fin.into_overlay();
+                    if nb {
+                        let mut f = Some(ov);
+                        let mut ok = Ok(false);
+                        let mut tries = 0;
+                        while let Some(cur) = f.take() {
+                            match cur.try_commit_nonblocking(&*db) {
+                                Ok(None) => { ok = Ok(true); }
+                                Ok(Some(back)) => {
+                                    sh.deferred.fetch_add(1, Ordering::Relaxed);
+                                    tries += 1;
+                                    if tries < 40 && !sh.stop.load(Ordering::Relaxed) {
+                                        std::thread::sleep(Duration::from_micros(200));
+                                        f = Some(back);
+                                    } else {
+                                        ok = Ok(false);
+                                    }
+                                }
+                                Err(e) => ok = Err(format!("{:#}", e)),
+                            }
+                        }
+                        ok
+                    } else {
+                        ov.commit(&*db).map(|_| true).map_err(|e| format!("{:#}", e))
+                    }
+                } else if nb {
                     let mut f = Some(fin);
                     let mut ok = Ok(false);
                     let mut tries = 0;
@@ -266,7 +295,7 @@ pub fn run_conc_case(rng: &mut Rng, idx: usize, thorough: bool) -> ConcOut {
                 };
                 let t_end = sh.now();
                 match res {
-                    Ok(true) => sh.commits.lock().unwrap().push(CommitRec { id, prev_root, new_root, changes: m.into_iter().collect(), t_start, t_end, flavour: if nb { "nb" } else { "blocking" } }),
+                    Ok(true) => sh.commits.lock().unwrap().push(CommitRec { id, prev_root, new_root, changes: m.into_iter().collect(), t_start, t_end, flavour: match (via_overlay, nb) { (false, true) => "nb", (false, false) => "blocking", (true, true) => "overlay-nb", (true, false) => "overlay-blocking" } }),
                     Ok(false) => {}
                     Err(e) => {
                         if e.contains("no longer valid") {
